@@ -445,6 +445,36 @@ INPLACE_METHODS = {"sort", "fill", "resize", "put", "itemset", "setfield", "part
 META_METHODS = {"setflags"}
 
 
+_RET_ALIAS: Dict[str, Dict[int, str]] = {}
+
+
+def _returned_params(prog: Program, callee: Unit) -> Dict[int, str]:
+    """tuple position -> parameter name for functions that hand a parameter
+    object back unchanged inside their returned tuple (-1: the bare return value)."""
+    if callee.qual in _RET_ALIAS:
+        return _RET_ALIAS[callee.qual]
+    _RET_ALIAS[callee.qual] = {}
+    dc = DefUse(callee, CFG(callee.node, exc_edges=False))
+    out: Dict[int, str] = {}
+    for n in dc.cfg.nodes:
+        if not (n.kind == "stmt" and isinstance(n.ast, ast.Return) and n.ast.value is not None):
+            continue
+        v = n.ast.value
+        at = n.id
+        if isinstance(v, ast.Name):
+            d = dc.unique_value(n.id, v.id)
+            if d is not None and d.value is not None and isinstance(d.value, ast.Tuple):
+                v, at = d.value, d.node
+        elts = list(enumerate(v.elts)) if isinstance(v, ast.Tuple) else [(-1, v)]
+        for pos, el in elts:
+            if isinstance(el, ast.Name) and el.id in callee.params:
+                ds = dc.reaching(at, el.id)
+                if ds and all(d.sel == (("param",),) for d in ds):
+                    out[pos] = el.id
+    _RET_ALIAS[callee.qual] = out
+    return out
+
+
 def _alias_kind(prog: Program, u: Unit, du: DefUse, nid: int, e: ast.AST, params: Set[str],
                 depth: int = 0) -> Optional[Tuple[str, str]]:
     """('same'|'view', param) if e may alias caller data of parameter `param`."""
@@ -456,6 +486,31 @@ def _alias_kind(prog: Program, u: Unit, du: DefUse, nid: int, e: ast.AST, params
             if d.sel and d.sel[0][0] == "param":
                 if e.id in params:
                     return ("same", e.id)
+                continue
+            dval, dnode = d.value, d.node
+            if isinstance(dval, ast.Name):
+                d2 = du.unique_value(d.node, dval.id)
+                if d2 is not None and d2.value is not None and not d2.sel:
+                    dval, dnode = d2.value, d2.node
+            if dval is not None and d.sel and d.sel[0][0] == "idx" and len(d.sel) == 1 \
+                    and isinstance(dval, ast.Call):
+                d = Def(d.id, dnode, d.name, dval, d.sel, d.stmt)
+                callee = _callee_of(prog, u, d.value)
+                if callee is not None:
+                    rp = _returned_params(prog, callee)
+                    pname = rp.get(d.sel[0][1])
+                    if pname is not None:
+                        cparams = [p for p in callee.params if p not in ("self", "cls")]
+                        arg = None
+                        if pname in cparams and cparams.index(pname) < len(d.value.args):
+                            arg = d.value.args[cparams.index(pname)]
+                        for k in d.value.keywords:
+                            if k.arg == pname:
+                                arg = k.value
+                        if arg is not None:
+                            r = _alias_kind(prog, u, du, d.node, arg, params, depth + 1)
+                            if r is not None:
+                                return r
                 continue
             if d.value is None or (d.sel and d.sel[0][0] in ("iter", "idx", "with", "exc",
                                                              "def", "import", "aug")):
@@ -607,7 +662,9 @@ def a5(prog: Program, chk: Check) -> None:
                 continue
             ctx = list(branch_context(u.node, node))
             for d in du.reaching(nid, dotted(base) or ""):
-                if d.stmt is not None:
+                # only the definition through which the alias arises carries the guard
+                if d.stmt is not None and d.value is not None and \
+                        _alias_kind(prog, u, du, d.node, d.value, params) is not None:
                     ctx += branch_context(u.node, d.stmt)
             guard = None
             for (t, br) in ctx:
